@@ -127,9 +127,10 @@ var Seqs = map[string][]Pt{
 		pt("m", "a", "y", 0, F{"v": iv(2)}),
 		pt("m", "a", "x", 1, F{"v": iv(4), "w": iv(1)}),
 		pt("m", "b", "y", 1, F{"v": iv(1)}),
-		pt("m", "a", "x", 2, F{"v": iv(2)}),
+		// a: {v=4,w=1}, {v=4}, {v=4,w=1}: changeDetect('w','v') must compare with the last EMITTED point
+		pt("m", "a", "x", 2, F{"v": iv(4)}),
 		pt("m", "b", "x", 2, F{"v": iv(5), "w": iv(1)}),
-		pt("m", "a", "y", 2, F{"v": iv(2)}),
+		pt("m", "a", "y", 2, F{"v": iv(4), "w": iv(1)}),
 	},
 	// mixed field types, missing fields and tags
 	"mixed": {
